@@ -73,6 +73,9 @@ MENU = {
     "union": (["union", [I64, ["list", I64]]], _cfg(), None, "U"),
     "virtual_list": (["list", F64], _cfg(dt=("float64",)), "virtual", "L"),
     "virtual_numpy": (I64, _cfg(), "virtual", "S"),
+    "virtual_uint32": (M.prim("uint32"), _cfg(dt=("uint32",), extremes=True), "virtual", "N"),
+    "virtual_uint8": (M.prim("uint8"), _cfg(dt=("uint8",), extremes=True), "virtual", "N"),
+    "virtual_float32": (M.prim("float32"), _cfg(dt=("float32",)), "virtual", "N"),
     "partitioned_list": (["list", I64], _cfg(), "partitioned", "L"),
     "partitioned_opt": (M.option_of(I64), _cfg(opts=("ByteMaskedArray",)), "partitioned", "S"),
 }
